@@ -193,6 +193,10 @@ func execGE(_ *config, op string) string {
 		case "rt":
 			f := parseFloats(toks[1:])
 			g := geo.NewGnomonic(geodesic.WGS84)
+			if math.Float64bits(f[1])&1 == 1 {
+				g.Forward(-f[0], f[1]+170, -f[0]+1, f[1]+171) // a used object
+				g.Reverse(-f[0], f[1]+170, 1000, -2000)
+			}
 			x, y, azi, rk := g.Forward(f[0], f[1], f[2], f[3])
 			lat, lon, _, _ := g.Reverse(f[0], f[1], x, y)
 			x2, y2, _, _ := g.Forward(f[0], f[1], lat, lon)
@@ -200,6 +204,12 @@ func execGE(_ *config, op string) string {
 		case "ix":
 			f := parseFloats(toks[1:11])
 			g := geo.NewGnomonic(geodesic.WGS84)
+			if math.Float64bits(f[1])&1 == 1 {
+				// a used object: it has solved a crossing on the other side of the globe, and projected
+				// about a far centre, before
+				g.IntersectExt(-f[0]-1, f[1]+150, -f[2]-1, f[3]+150.01, -f[4]-1.005, f[5]+150.005, -f[6]-0.995, f[7]+150.005)
+				g.Forward(-f[0], f[1]+170, -f[0]+1, f[1]+171)
+			}
 			lat, lon, a1, a2, b1, b2 := g.IntersectExt(f[0], f[1], f[2], f[3], f[4], f[5], f[6], f[7])
 			_, _, err := g.Intersect(f[0], f[1], f[2], f[3], f[4], f[5], f[6], f[7])
 			res := "ok"
@@ -355,6 +365,11 @@ func genGE(cfg *config, r *rng, i int, s *sink) string {
 				off = pick(r, []float64{0, 0.005, 0.5}) * scale
 			}
 			s.count("ge.line.short_near_end")
+		}
+		if kind == "dtl" && r.chance(1, 25) {
+			// a line that is a single point (a marker post): the distance to it is the distance to the point
+			lat2, lon2 = lat, lon
+			s.count("ge.line.point")
 		}
 		side := 90.0
 		if r.bool() {
